@@ -225,3 +225,80 @@ pub fn windower(data: &[u8]) -> c20::ChunkCase {
     };
     c20::ChunkCase { l, bin, hop, hann, ft }
 }
+
+/// adaptor tree shared by C04 and C05 (same node set, weights and bounds as the proptest strategy `c04::tree`)
+fn node(u: &mut Unstructured, depth: u32, probe_only: bool, budget: &mut u32) -> crate::tree::Node {
+    use crate::tree::{LeafKind, Node};
+    let leaf = |u: &mut Unstructured| {
+        if probe_only {
+            let len = if idx(u, 3) == 0 { None } else { Some(idx(u, 40) as u64) };
+            Node::Leaf { len, kind: LeafKind::Probe }
+        } else {
+            let l = idx(u, 40) as u64;
+            let extra = idx(u, 4);
+            let kind = match idx(u, 5) {
+                0 => LeafKind::Probe,
+                1 => LeafKind::FromIter,
+                2 => LeafKind::FromInterleaved { extra },
+                3 => LeafKind::FromIterRevive { nones: 1 + extra as u8 },
+                _ => LeafKind::FromInterleavedRevive { nones: 1 + extra as u8 },
+            };
+            Node::Leaf { len: Some(l), kind }
+        }
+    };
+    if depth == 0 || *budget == 0 || u.is_empty() {
+        return leaf(u);
+    }
+    *budget -= 1;
+    let sel = idx(u, 14);
+    if sel >= 12 {
+        return leaf(u);
+    }
+    let blen = |u: &mut Unstructured| if idx(u, 3) == 0 { None } else { Some(idx(u, 40) as u64) };
+    let code = |u: &mut Unstructured| idx(u, 256) as u8 as i8;
+    let c = Box::new(node(u, depth - 1, probe_only, budget));
+    match sel {
+        0 => Node::Map(c),
+        1 => Node::ScaleAmp(c, code(u)),
+        2 => Node::OffsetAmp(c, code(u)),
+        3 => Node::ScalePerCh(c, code(u)),
+        4 => Node::OffsetPerCh(c, code(u)),
+        5 => Node::ClipAmp(c, idx(u, 50) as u8),
+        6 => Node::Inspect(c),
+        7 => Node::Delay(c, idx(u, 5) as u8),
+        8 => Node::ByRef(c, idx(u, 12) as u8),
+        9 => Node::ZipMap(c, Box::new(node(u, depth - 1, probe_only, budget))),
+        10 => Node::AddAmp(c, blen(u)),
+        _ => Node::MulAmp(c, blen(u)),
+    }
+}
+
+/// C04 — adaptor trees against the per-frame model
+pub fn tree(data: &[u8]) -> crate::c04::Case {
+    let mut u = Unstructured::new(data);
+    let ft = crate::tree::FTS[idx(&mut u, 8)];
+    let pulls = idx(&mut u, 48) as u64;
+    let mut budget = 24;
+    let tree = node(&mut u, 7, true, &mut budget);
+    crate::c04::Case { ft, tree, pulls }
+}
+
+/// C05 — exhaustion through adaptor trees in every consumption mode
+pub fn exhaust(data: &[u8]) -> crate::c05::Case {
+    use crate::c05::Mode;
+    let mut u = Unstructured::new(data);
+    let ft = crate::tree::FTS[idx(&mut u, 8)];
+    let mode = match idx(&mut u, 7) {
+        0 => Mode::Step,
+        1 => Mode::UntilExhausted,
+        2 => Mode::Take(idx(&mut u, 50) as u64),
+        3 => Mode::InterleavedIter,
+        4 => Mode::NextSample,
+        5 => Mode::Lift,
+        _ => Mode::Borrowed,
+    };
+    let extra = if idx(&mut u, 3) == 0 { 1 + idx(&mut u, 5) as u64 } else { 0 };
+    let mut budget = 24;
+    let tree = node(&mut u, 7, false, &mut budget);
+    crate::c05::Case { ft, tree, mode, extra }
+}
